@@ -140,11 +140,13 @@ RunConstant(e, first, last, code) ==
                              IN Encode16(e, 0, a) = code /\ Encode16(e, 0, z) = code)
 
 (* [first, last] is a maximal run of the model with value code *)
+RunMaximal(e, first, last, code) ==
+  /\ (IsLowest(first) \/ Encode(e, Pred(first)[1], Pred(first)[2]) # code)
+  /\ (IsHighest(last) \/ Encode(e, Succ(last)[1], Succ(last)[2]) # code)
 RunOK(e, first, last, code) ==
   /\ PosOK(first) /\ PosOK(last) /\ PosLe(first, last)
   /\ RunConstant(e, first, last, code)
-  /\ (IsLowest(first) \/ Encode(e, Pred(first)[1], Pred(first)[2]) # code)
-  /\ (IsHighest(last) \/ Encode(e, Succ(last)[1], Succ(last)[2]) # code)
+  /\ RunMaximal(e, first, last, code)
 
 -----------------------------------------------------------------------------
 (* The machine.  The library has no state; `last` records the last operation the model accepted and `prev` the
@@ -164,14 +166,24 @@ FromLinearInt(e, neg, mag, code) ==
 FromLinearIntF64(e, j, code) ==
   /\ IsEnc(e) /\ code = EncodeF64(e, j)
   /\ last' = "from_linear_int_f64" /\ UNCHANGED prev
-(* a whole run of equal outputs of from_linear *)
+(* a whole run of equal outputs of from_linear: it is a run of the model, and the code is within 0.6 of
+   max * f(x) at both ends (hence on all of it; inputs below 0 / above 1 are judged at 0 / 1) *)
+RunEnds(first, lst) == <<IF first[1] = 1 THEN DyZero ELSE F32Val(first[2]),
+                         IF lst[1] = 1 THEN DyZero ELSE F32Val(IF lst[2] >= OneBits THEN OneBits ELSE lst[2])>>
+RunFaithful(e, first, lst, code) ==
+  LET x == RunEnds(first, lst) IN RunWithin06(RunVerdicts(e, MaxCode(e), code, x[1], x[2]))
 FromLinearRun(e, first, lst, code) ==
-  /\ IsEnc(e) /\ RunOK(e, first, lst, code)
+  /\ IsEnc(e) /\ RunOK(e, first, lst, code) /\ RunFaithful(e, first, lst, code)
   /\ last' = "from_linear_run" /\ UNCHANGED prev
-(* IntoLinear<f32|f64, u8|u16>::into_linear: the value x (a Dy) is on the curve and encodes back to k *)
-IntoLinearInt(e, t, k, x, back) ==
-  /\ IsEnc(e) /\ x[1] >= 0
-  /\ DecodeOK(e, t, MaxCode(e), k, x) /\ back = k
+(* IntoLinear<f32, _> and IntoLinear<f64, _>::into_linear of code k: both values (Dy) are on the curve and encode
+   back to k.  When the f32 value is the f64 value rounded to f32 it inherits the verdict of the f64 value (its
+   distance from it, 2^-25 relative, is far inside the f32 tolerance), which saves a second pair of power comparisons. *)
+DecodedOK(e, k, x32, x64) ==
+  /\ x32[1] >= 0 /\ x64[1] >= 0
+  /\ DecodeOK(e, "f64", MaxCode(e), k, x64)
+  /\ DyEq(x32, F32Val(RoundF32Bits(x64))) \/ DecodeOK(e, "f32", MaxCode(e), k, x32)
+IntoLinearInt(e, k, x32, x64, back32, back64) ==
+  /\ IsEnc(e) /\ DecodedOK(e, k, x32, x64) /\ back32 = k /\ back64 = k
   /\ last' = "into_linear_int" /\ UNCHANGED prev
 (* FromLinear<T, T> (dir "enc": v linear, w encoded) and IntoLinear<T, T> (dir "dec": v encoded, w linear),
    with the value obtained by applying the opposite function to w *)
